@@ -1,0 +1,30 @@
+//go:build verif
+// +build verif
+
+package mmap
+
+import "golang.org/x/sys/unix"
+
+// Verification hooks, compiled only with the "verif" build tag.
+
+// VerifSynced, if set, is called after each Sync with the file name.
+var VerifSynced func(name string)
+
+// VerifQuarantine, when true, makes Close protect the mapping with
+// PROT_NONE instead of unmapping it, so that any later access through
+// a stale reference faults deterministically instead of touching
+// whatever the address range has been reused for.
+var VerifQuarantine bool
+
+func verifSynced(f *File) {
+	if VerifSynced != nil {
+		VerifSynced(f.name)
+	}
+}
+
+func verifUnmap(f *File) bool {
+	if VerifQuarantine && len(f.Data) > 0 {
+		return unix.Mprotect(f.Data, unix.PROT_NONE) == nil
+	}
+	return false
+}
